@@ -146,6 +146,29 @@ TABLE.update({
  "C17-L": ("sim", "go test -vet=off -count=1 -run TestC17L ./sim/"),
 })
 
+TABLE.update({
+ "C01-M": ("data", "go test -vet=off -count=1 -run TestC01M ./data/"),
+ "C01-N": ("data", "go test -vet=off -count=1 -run TestC01N ./data/"),
+ "C02-M": ("data", "go test -vet=off -count=1 -run TestDemoC02M ./data/"),
+ "C02-N": ("data", "go test -vet=off -count=1 -run TestDemoC02N ./data/"),
+ "C03-M": (None, 'B=$(mktemp -d) && go build -buildmode=c-shared -o $B/libopenwater.so ./libopenwater && gcc -O1 -pthread -o $B/demo %(out)s/demo/two_threads.c -I$B -L$B -lopenwater -lm && LD_LIBRARY_PATH=$B $B/demo; rc=$?; rm -rf $B; exit $rc'),
+ "C03-N": (None, 'B=$(mktemp -d) && go build -buildmode=c-shared -o $B/libopenwater.so ./libopenwater && gcc -O1  -o $B/demo %(out)s/demo/truthy_flag.c -I$B -L$B -lopenwater -lm && LD_LIBRARY_PATH=$B $B/demo; rc=$?; rm -rf $B; exit $rc'),
+ "C04-M": ("models/rr", "go test -vet=off -count=1 -run TestC04MDemo ./models/rr/"),
+ "C04-N": ("models/routing", "go test -vet=off -count=1 -run TestC04NDemo ./models/routing/"),
+ "C05-M": ("models", "go test -vet=off -count=1 -run TestC05M ./models/"),
+ "C05-N": ("cmd/ow-sim", "go1.26.8 test -race -modfile=%(stub)s -vet=off -count=1 -run TestC05N ./cmd/ow-sim/"),
+ "C06-M": ("models/routing", "go test -vet=off -count=1 -run TestFineSedimentHotStartDemo ./models/routing/"),
+ "C06-N": ("cmd/ow-sim", "go1.26.8 test -modfile=%(stub)s -vet=off -count=1 -run TestVerboseHotStartDemo ./cmd/ow-sim/"),
+ "C07-M": ("cmd/ow-sim", "go1.26.8 test -modfile=%(stub)s -vet=off -count=1 -timeout 120s -run TestC07M_Writer ./cmd/ow-sim/"),
+ "C07-N": ("cmd/ow-sim", "go1.26.8 test -modfile=%(stub)s -vet=off -count=1 -run TestC07N ./cmd/ow-sim/"),
+ "C08-M": ("io", "go1.26.8 test -modfile=%(stub)s -vet=off -count=1 -run TestC08MDemo ./io/"),
+ "C08-N": ("io", "go1.26.8 test -modfile=%(stub)s -vet=off -count=1 -run TestC08NDemo ./io/"),
+ "C14-M": ("models/functions", "go test -vet=off -count=1 -run TestDateGeneratorIndependentOfProcessTimeZone ./models/functions/"),
+ "C14-N": ("models/routing", "go test -vet=off -count=1 -run TestStorageRoutingRepeatable ./models/routing/"),
+ "C17-M": ("sim", "go test -vet=off -count=1 -run TestC17MSlowClient ./sim/"),
+ "C17-N": ("cmd/ow-single", "go test -vet=off -count=1 -run TestC17NStdinKinds ./cmd/ow-single/"),
+})
+
 def sh(cmd, cwd=WT):
     r = subprocess.run(cmd, shell=True, cwd=cwd, env=ENV, capture_output=True, text=True)
     return r.returncode, (r.stdout + r.stderr)[-1500:]
